@@ -32,16 +32,9 @@ fn replay(run: &Run, v: &Value) -> i32 {
                         }
                     }
                 }
-                let mut p = TlsRecordsParser::default();
-                let mut st = RefState::default();
-                for (n, op) in ops.iter().enumerate() {
-                    let before = (p.verif_defrag_buffer().to_vec(), p.verif_current_record_type().map(|t| t.0));
-                    let (exp, region, unchanged) = ref_step(&mut st, op, &alpha);
-                    let obs = impl_step(&mut p, op, &alpha, region);
-                    if let Some(m) = compare(op, &before, &obs, &exp, region, unchanged, &st) {
-                        msgs.push(format!("operation {} ({}): {}", n, op_str(op, &alpha), m));
-                        break;
-                    }
+                HDR_VERSION.with(|v| v.set(case["version"].as_u64().unwrap_or(0x0303) as u16));
+                if let Some((n, m)) = run_history(&alpha, &ops) {
+                    msgs.push(format!("operation {} ({}): {}", n, op_str(&ops[n], &alpha), m));
                 }
             }
             Some("cap") => {
@@ -146,6 +139,55 @@ fn main() {
     let (h2, st2) = s2(&mut sink, 65535, thorough);
     per.push(json!({"scenario":"S2 size cap","histories":h1+h2,"steps":st1+st2}));
 
+    // S3: the record-layer version is dead in this module: every one of the 65536 values, on the first
+    // fragment / continuation / last fragment alike, over 2- and 3-way splits with an interleaved foreign record,
+    // a refused nocopy call and a trailing complete record
+    let mut s3_hist = 0usize;
+    {
+        let mut hists: Vec<(Vec<Rec>, Vec<Op>)> = Vec::new();
+        for (ty, p) in s1_catalogue(thorough).into_iter().filter(|(_, p)| p.len() >= 3) {
+            let n = p.len();
+            for cuts in [vec![1usize], vec![n / 2], vec![1, n - 1], vec![n - 1]] {
+                let mut alpha = Vec::new();
+                let mut ops = Vec::new();
+                let mut at = 0;
+                for c in cuts.iter().chain(std::iter::once(&n)) {
+                    alpha.push(Rec { ty, data: p[at..*c].to_vec() });
+                    ops.push(Op::Parse(alpha.len() - 1));
+                    if at == 0 {
+                        alpha.push(Rec { ty: 0x15, data: vec![1, 0] });
+                        ops.push(Op::Parse(alpha.len() - 1));
+                        ops.push(Op::NoCopy(alpha.len() - 1));
+                    }
+                    at = *c;
+                }
+                alpha.push(Rec { ty: 0x16, data: vec![0x0e, 0, 0, 0] });
+                ops.push(Op::Parse(alpha.len() - 1));
+                ops.push(Op::NoCopy(alpha.len() - 1));
+                hists.push((alpha, ops));
+            }
+        }
+        s3_hist = hists.len() * 65536;
+        let s3 = par_run(run.threads, 256, |hi, sink| {
+            for lo in 0..256u32 {
+                let ver = ((hi as u32) << 8 | lo) as u16;
+                HDR_VERSION.with(|v| v.set(ver));
+                for (alpha, ops) in &hists {
+                    sink.evals += ops.len() as u64;
+                    if let Some((n, m)) = run_history(alpha, ops) {
+                        let mut j = json!({"kind":"history","scenario":"S3 record version","ops":hist_json(&ops[..=n], alpha)});
+                        j["version"] = json!(ver);
+                        sink.violation(format!("S3 version {:#06x} op {}", ver, n), format!("[S3 record version {:#06x}] operation {} ({}): {}", ver, n, op_str(&ops[n], alpha), m), j);
+                    }
+                }
+            }
+            HDR_VERSION.with(|v| v.set(0x0303));
+        });
+        transitions += s3.evals as usize;
+        sink.merge(s3);
+        per.push(json!({"scenario":"S3 record-layer version sweep","versions":65536,"histories":s3_hist}));
+    }
+
     if sink.viol.is_empty() && (states < 500 || singles < 3) {
         machinery_failure(run.prop, &format!("vacuous exploration: {} states, {} single-message payloads", states, singles));
     }
@@ -161,13 +203,13 @@ fn main() {
     }
     cov.insert("exhaustive".into(), json!(all_complete));
     cov.insert("rule".into(), json!(
-        "states are canonical (buffer bytes, current type, reference accumulator, reference type, scenario cursor); every transition executes the real parse_record / parse_record_nocopy / reset on a parser rebuilt by replaying the witness history, and is compared with the reference accumulate-then-parse step (result value incl. slice provenance, defrag_in_progress, buffer, state-unchanged-on-refusal, size bound). S0 is depth-bounded (bound reported); S1 runs to fixpoint; S2 is a set of deterministic 10 MiB histories"));
+        "states are canonical (buffer bytes, current type, reference accumulator, reference type, scenario cursor); every transition executes the real parse_record / parse_record_nocopy / reset on a parser rebuilt by replaying the witness history, and is compared with the reference accumulate-then-parse step (result value incl. slice provenance, defrag_in_progress, buffer, state-unchanged-on-refusal, size bound). S0 is depth-bounded (bound reported); S1 runs to fixpoint; S2 is a set of deterministic 10 MiB histories; S3 replays fixed split histories under every one of the 65536 record-layer versions"));
     let code = run.finish(
         &sink,
         cov,
         vec![
             "the one-shot parser parse_tls_record_with_header is the oracle for message values (C07 defines the defragmenter relative to it); its own correctness is C03/C04".into(),
-            "records carry hdr.len == data.len() as parse_tls_raw_record produces them; record version fixed".into(),
+            "records carry hdr.len == data.len() as parse_tls_raw_record produces them; the record version is 0x0303 in S0-S2 and swept over all 65536 values in S3".into(),
             "S0 free exploration is bounded in depth; payloads of S1 are at most 45 bytes".into(),
         ],
     );
